@@ -62,7 +62,7 @@ fn caps_str(c: &[rspirv::spirv::Capability]) -> Vec<String> {
 }
 
 pub fn run(cfg: &Cfg, rep: &mut Report) {
-    rep.rule = "exhaustive: all 65536 opcode numbers through lookup_opcode, every declared Op through get, every table entry (core, GLSL.std.450, OpenCL.std) for uniqueness, well-formedness and equality with the frozen reference / spec anchors; ext-inst numbers 0..2^20 + edges + random. distinct_nontrivial = distinct table entries whose content was compared".into();
+    rep.rule = "exhaustive: all 65536 opcode numbers through lookup_opcode, every declared Op through get, every table entry (core, GLSL.std.450, OpenCL.std) for uniqueness, well-formedness and equality with the frozen reference / spec anchors; ext-inst numbers 0..2^20 + edges + random; lookups in varying order (6.4 M random (declared, any) pairs in both orders; thorough: all 787 x 65536 pairs) must give the answers of the ordered sweep. distinct_nontrivial = distinct table entries whose content was compared".into();
     rep.assumptions.push("the frozen reference (dumped from the pinned tree) equals the Khronos grammar of SDK 1.4.309.0".into());
     rep.exhaustive = true;
     let d = db();
@@ -186,6 +186,83 @@ pub fn run(cfg: &Cfg, rep: &mut Report) {
             r.inconclusive.push("spec anchors unreadable".into());
         }
     });
+
+    // ---- lookups are pure: the answer for n must not depend on what was looked up before (memo tables,
+    //      "last hit" shortcuts). Ordered sweeps overwrite such state long before a collision partner comes;
+    //      so: (declared X, any Y) in both orders - a random sample (quick), all 787 x 65536 pairs (thorough) -
+    //      interleaved with get(), plus random walks
+    {
+        let mut truth: Vec<Option<&'static str>> = vec![None; 65536];
+        for (name, v) in op_enum.variants {
+            if (*v as usize) < truth.len() {
+                truth[*v as usize] = Some(name);
+            }
+        }
+        let truth = &truth;
+        let declared_nums: Vec<u16> = op_enum.variants.iter().map(|(_, v)| *v as u16).collect();
+        let dn = &declared_nums;
+        let check_one = |n: u16, after: u16, r: &mut Report, rp: &dyn Fn() -> Json| -> bool {
+            let got = g::CoreInstructionTable::lookup_opcode(n);
+            let ok = match (truth[n as usize], got) {
+                (None, None) => true,
+                (Some(name), Some(e)) => e.opcode as u32 == n as u32 && e.opname == name,
+                _ => false,
+            };
+            if !ok {
+                r.violation("C09:lookup-depends-on-history".to_string(), format!("lookup_opcode({}) right after lookup_opcode({}) returned {:?}; declared: {:?}", n, after, got.map(|e| e.opname), truth[n as usize]), rp());
+            }
+            ok
+        };
+        let exhaustive_pairs = cfg.tier_thorough;
+        let cases: u64 = if exhaustive_pairs { declared_nums.len() as u64 } else { 64 };
+        run_stage(cfg, rep, "lookup-pairs", cases, |idx, rng, r| {
+            let rp = || crate::util::replay_ref(cfg, "lookup-pairs", idx);
+            let r0 = std::panic::catch_unwind(std::panic::AssertUnwindSafe(|| {
+                let mut local = Report::new("C09");
+                let mut n_pairs = 0u64;
+                if exhaustive_pairs {
+                    let x = dn[idx as usize];
+                    for y in 0..=u16::MAX {
+                        let _ = g::CoreInstructionTable::lookup_opcode(x);
+                        if !check_one(y, x, &mut local, &rp) {
+                            break;
+                        }
+                        if !check_one(x, y, &mut local, &rp) {
+                            break;
+                        }
+                        n_pairs += 2;
+                    }
+                } else {
+                    for _ in 0..100_000 {
+                        let x = dn[rng.below(dn.len())];
+                        let y = rng.u32() as u16;
+                        let _ = g::CoreInstructionTable::lookup_opcode(x);
+                        if !check_one(y, x, &mut local, &rp) || !check_one(x, y, &mut local, &rp) {
+                            break;
+                        }
+                        // get() after an arbitrary lookup
+                        if let Some(op) = decls::op_by_value(x as u32) {
+                            let e = g::CoreInstructionTable::get(op);
+                            if e.opcode as u32 != x as u32 {
+                                local.violation("C09:lookup-depends-on-history".to_string(), format!("get({:?}) right after lookup_opcode({}) returned the entry of {:?}", op, y, e.opcode), rp());
+                                break;
+                            }
+                        }
+                        n_pairs += 2;
+                    }
+                }
+                (local, n_pairs)
+            }));
+            match r0 {
+                Ok((local, n_pairs)) => {
+                    r.merge(local);
+                    r.count("lookup_pairs_checked", n_pairs);
+                    r.evaluations += n_pairs;
+                }
+                Err(_) => r.violation("C09:lookup-panic-after-history".to_string(), "a table lookup panicked in a sequence of lookups (each of them succeeds on its own)".to_string(), rp()),
+            }
+        });
+    }
 
     // ---- extended instruction tables
     type ExtLookup = fn(u32) -> Option<&'static g::ExtendedInstruction<'static>>;
